@@ -799,3 +799,42 @@ def n4(ctx):
                   'PyTreeAccessor.%s does not fold over `for entry in self` one entry at a time' % meth,
                   mod.loc(fn))
     ctx.require(n >= 5, 'only %d entry classes checked' % n)
+
+
+@rule('G8', floor=2, title='decorator factories hand every option on to the call that does the work')
+def g8(ctx):
+    """`f(option=...)` without the positional subject returns `functools.partial(f, ...)`, to be
+    applied to the subject later.  The partial must carry every keyword-only option of `f`, each
+    bound to the caller's value for that option (for the namespace: the namespace given, in
+    whichever parameter the function accepts it) - a dropped keyword silently falls back to the
+    default when the decorator is applied."""
+    pkg = ctx.py()
+    n = 0
+    for mname in ('optree.registry', 'optree.dataclasses', 'optree.functools'):
+        mod = pkg.mod(mname)
+        for q, fn in sorted(mod.funcs.items()):
+            if '.' in q:
+                continue
+            kwonly = [a.arg for a in fn.args.kwonlyargs]
+            first = [a.arg for a in fn.args.posonlyargs + fn.args.args][:1]
+            for c in calls_under(fn):
+                if call_name(c) != 'functools.partial' or not c.args or not is_name(c.args[0], fn.name):
+                    continue
+                n += 1
+                kws = {k.arg: k.value for k in c.keywords if k.arg}
+                missing = [k for k in kwonly if k not in kws]
+                wrong = []
+                for k, v in kws.items():
+                    if k not in kwonly:
+                        continue
+                    ok = is_name(v, k) or (k == 'namespace' and first and is_name(v, first[0]))
+                    if not ok:
+                        wrong.append('%s=%s' % (k, src(v)))
+                ctx.check('%s/factory@%d-forwards-options' % (q, n), not missing and not wrong,
+                          '%s: the deferred call carries %s' % (q, ', '.join(kwonly)),
+                          '%s: the deferred call `%s` %s: when the decorator is applied the option '
+                          'falls back to its default' % (
+                              q, src(c)[:80],
+                              ('drops ' + ', '.join(missing)) if missing else ('binds ' + ', '.join(wrong))),
+                          mod.loc(c))
+    ctx.require(n >= 2, 'only %d decorator-factory partials found' % n)
